@@ -722,6 +722,9 @@ def run(ctx):
 
 
 SELFTESTS = [
+    (rule_enumeration_covers_all, ["c16_enum_bad.cc"], ["c16_enum_good.cc"], "enumeration"),
+    (rule_occupancy_is_presence, ["c16_enum_bad.cc"], ["c16_enum_good.cc"], "false-only-when-absent"),
+    (rule_policy_in_force, ["c16_policy_bad.cc"], ["c16_policy_good.cc"], "connect_drives("),
     (rule_tables, ["c16_bad.cc"], ["c16_good.cc"], "connect_internal"),
     (rule_lowest_free, ["c16_first_bad.cc"], ["c16_first_good.cc"], "n-start"),
     (rule_drive_number_range, ["c16_first_bad.cc"], ["c16_first_good.cc"], "narrow(ld)"),
